@@ -389,6 +389,69 @@ func checkC11(w *World, r *Report) {
 		})
 	}
 	r.floor("stores to RenderContext scope-map fields", n4, 8)
+
+	// ---- R11.6: every `with` variable is handed over.  Each pass of the loop over the node's
+	// variables either leaves the function (an evaluation error) or binds the name on the
+	// included template's context; a pass that skips the binding for some values (null) lets the
+	// includer's variable of that name show through.
+	setVar := w.method("RenderContext", "SetVariable")
+	n6 := 0
+	for _, pt := range parts {
+		pf := pt.fn
+		instrsOf(pf, func(in ssa.Instruction) {
+			nx, ok := in.(*ssa.Next)
+			if !ok {
+				return
+			}
+			rg, ok := nx.Iter.(*ssa.Range)
+			if !ok {
+				return
+			}
+			if _, ok := fieldLoad(origin(rg.X), "IncludeNode", "variables"); !ok {
+				return
+			}
+			header := nx.Block()
+			apply := map[*ssa.BasicBlock]bool{}
+			instrsOf(pf, func(x ssa.Instruction) {
+				if c, ok := x.(ssa.CallInstruction); ok && calleeFunc(c) == setVar {
+					apply[x.Block()] = true
+				}
+			})
+			if len(apply) == 0 {
+				return
+			}
+			n6++
+			// the body: the successor of the header taken while the iteration goes on
+			seenB := map[*ssa.BasicBlock]bool{}
+			skip := false
+			var dfs func(b *ssa.BasicBlock)
+			dfs = func(b *ssa.BasicBlock) {
+				if skip || seenB[b] || apply[b] {
+					return
+				}
+				seenB[b] = true
+				for _, sb := range b.Succs {
+					if sb == header {
+						skip = true
+						return
+					}
+					dfs(sb)
+				}
+			}
+			for _, sb := range header.Succs {
+				if sb != header {
+					dfs(sb)
+				}
+			}
+			construct := "every with-variable is bound on the included context"
+			if skip {
+				r.bad("R11.6", ssaName(pf), construct, w.posOf(in.Pos()), "the loop over the `with` variables can go on to the next one without calling SetVariable for this one: for such values the included template sees the includer's variable of that name instead of the value passed")
+			} else {
+				r.ok("R11.6", ssaName(pf), construct, w.posOf(in.Pos()), "each pass binds the name or leaves the function", true)
+			}
+		})
+	}
+	r.floor("loops over the with-variables of an include", n6, 1)
 	// composite literals of RenderContext (pool New) are fresh by construction: checked through the same stores in SSA
 }
 
